@@ -117,6 +117,36 @@ def run(ctx):
                    "-> %s for %s" % (h, algos) if ok else
                    "%s with limit%s0, offset%s0 selects %s (expected [%s] over %s)" % (fn, "=" if lz else "!=", "=" if oz else "!=", got, h, algos),
                    b.where)
+    # R16b (cont.): the streaming handlers receive the query's limit / offset in the right positions
+    ARGS = {"LimitHandler": ["limit"], "OffsetHandler": ["offset"], "LimitOffsetHandler": ["limit", "offset"]}
+    n_ctor = 0
+    for fn in ("search_from", "search_to"):
+        b = fa.body(DB + fn)
+        if not b:
+            continue
+        # which parameter is the limit and which the offset: the operands of the matched `(limit, offset)` tuple
+        pidx = {}
+        for bi, s in cfg.assigns(b):
+            r = s["r"]
+            if r["k"] == "agg" and r.get("what") == "tuple" and len(r["ops"]) == 2:
+                os_ = [cfg.op_origin(b, o) for o in r["ops"]]
+                if all(o and 1 <= o[0] <= b.d["argc"] and b.local_ty(o[0]) == "u64" and not o[1] for o in os_):
+                    pidx = {"limit": os_[0][0], "offset": os_[1][0]}
+        for i, t in cfg.calls(b):
+            c = common.norm(cfg.callee(t) or "")
+            if "db_search_handlers::" not in c or not c.endswith("::new"):
+                continue
+            h = c.split("::")[-2]
+            if h not in ARGS:
+                continue
+            n_ctor += 1
+            got = [(cfg.op_origin(b, a) or (None,))[0] for a in t["a"][:len(ARGS[h])]]
+            want = [pidx.get(x) for x in ARGS[h]]
+            ctx.ob("R16b", "%s:%s::new#%d" % (fn, h, n_ctor), got == want and None not in want,
+                   "%s::new(%s, ..)" % (h, ", ".join(ARGS[h])) if got == want else
+                   "%s::new in %s receives its limit/offset arguments in the wrong positions (expected %s)" % (h, fn, ARGS[h]),
+                   b.loc(i), key="%s|R16b|%s|%s::new|args" % (ctx.pid, fn, h))
+    ctx.floor("R16b", "streaming handler constructions", n_ctor, 15)
     if len(tables) == 2:
         ctx.ob("R16b", "search_from~search_to", tables["search_from"] == tables["search_to"],
                "forward and reverse searches use the same handler table" if tables["search_from"] == tables["search_to"] else
@@ -192,6 +222,20 @@ def run(ctx):
         ctx.ob("R16d", "sort:comparator", ok,
                "(None,None)=Equal, (None,Some)=Greater, (Some,None)=Less, (Some,Some)=cmp / cmp.reverse() for Desc" if ok else
                "sort comparator table changed: %s, Asc/Desc ok: %s" % (tbl, inner_ok), b.where)
+        # each side's value is looked up BY KEY in the fetched values (values_by_keys omits missing keys, so a
+        # positional lookup would shift later keys): two `find` calls whose predicate compares DbValue keys
+        finds = 0
+        for cb in [b] + fa.closures_of(b.path):
+            for i, t in cfg.calls(cb):
+                if (cfg.callee_decl(t) or "").endswith("Iterator::find"):
+                    for pb in common.closure_bodies_passed(fa, cb, t):
+                        if any((cfg.callee_decl(tt) or "").endswith("PartialEq::eq") and "DbValue" in (cfg.callee_full(tt) or "")
+                               for j, tt in cfg.calls(pb)):
+                            finds += 1
+        ctx.ob("R16d", "sort:lookup-by-key", finds >= 2,
+               "left and right values are found by key equality" if finds >= 2 else
+               "the sort comparator no longer looks the ordering key up by key equality on both sides (found %d of 2 "
+               "`find(|kv| kv.key == *key)`): elements lacking an earlier key would be compared by shifted values" % finds, b.where)
         stable = [1 for i, t in cfg.calls(b) if (cfg.callee_decl(t) or "").endswith("::sort_by")]
         unstable = [1 for i, t in cfg.calls(b) if "sort_unstable" in (cfg.callee_decl(t) or "")]
         ctx.ob("R16d", "sort:stable", bool(stable) and not unstable, "uses the stable slice::sort_by" if stable and not unstable
